@@ -59,8 +59,11 @@ func goid() int64 {
 }
 
 func (c *schedCtl) hook(name string) {
-	if !strings.HasPrefix(name, "keyspace.") {
-		return
+	switch name {
+	case "keyspace.flush", "keyspace.keysExist", "keyspace.getExpiry", "keyspace.getValues", "keyspace.setValues",
+		"keyspace.setExpiry", "keyspace.deleteKey", "keyspace.getState":
+	default:
+		return // other points (cache updates, memory adjustment) are not scheduling points
 	}
 	c.mu.Lock()
 	a, ok := c.actors[goid()]
